@@ -16,7 +16,9 @@ RULE = ('random gridded IOAPI files (negative origins, non-square cells, '
         '31 Dec / 29 Feb, steps 1 s .. 24 h) x contiguous windows given as '
         'positive/negative integers or unit-stride slices (open-ended, '
         'touching either edge, full, single cell) alone and combined over '
-        'ROW, COL, LAY, TSTEP in shuffled keyword order. non-trivial = the '
+        'ROW, COL, LAY, TSTEP in shuffled keyword order; one source in five '
+        'carries its time metadata in SDATE/STIME/TSTEP only (no TFLAG '
+        'variable). non-trivial = the '
         'window drops at least one cell/layer/step; distinct = digest of '
         'the spec.')
 ASSUMPTIONS = [
